@@ -251,7 +251,8 @@ __CPROVER_assigns(__CPROVER_object_whole(coded_off), __CPROVER_object_whole(code
 /* C07: the offset list stored for the location code of the arbitrary node (GR, GC) is, as a multiset, the list of
  * (target row - GR, target col - GC) over the admissible steps of the connectivity */
 __CPROVER_ensures(%s)
-""" % post)
+__CPROVER_ensures(coded_n[CODE_K] <= %d)   /* at most n_neighbors_max entries */
+""" % (post, len(STEPS[conn])))
 
 
 def coded_group(conn, k):
@@ -348,15 +349,27 @@ def cls_tgt(k, dr, dc):
 # and the substitution of equals that joins them is listed as unmechanised.
 def indices_unit():
     A = "coded_off[2 * OFFCAP * GKC + %d]"
-    post = " && ".join("(%d < coded_n[GKC] ==> neighbors[%d] == (size_t) %s * m_shape1 + (size_t) %s + idx)" % (i, i, A % (2 * i), A % (2 * i + 1))
-                       for i in range(OFFCAP))
+    # `x * ncols` is abstracted as a deterministic function of its operands (DESIGN 3.4, "no arithmetic circuit twice"): GM[i] is the
+    # product the code computes for slot i's row offset; the lemma groups speak about the real product
+    post = " && ".join("(%d < coded_n[GKC] ==> neighbors[%d] == GM[%d] + (size_t) %s + idx)" % (i, i, i, A % (2 * i + 1)) for i in range(OFFCAP))
+    table = " && ".join("((x == (size_t) %s && y == GY) ==> __CPROVER_return_value == GM[%d])" % (A % (2 * i), i) for i in range(OFFCAP))
+    consistent = " && ".join("(%s == %s ==> GM[%d] == GM[%d])" % (A % (2 * i), A % (2 * j), i, j) for i in range(OFFCAP) for j in range(i + 1, OFFCAP))
+    mul = r"""
+size_t GM[OFFCAP]; size_t GY; size_t GKC; /* ghosts: the products, the common right operand (ncols), the location code stored for idx */
+const ptrdiff_t *G_OFF; /* ghost alias of coded_off for the abstraction's table */
+#define coded_off_G G_OFF
+size_t fsl_mul(size_t x, size_t y)
+__CPROVER_assigns()
+__CPROVER_ensures(%s)
+;
+""" % table.replace("coded_off[", "coded_off_G[")
     return Unit(
         name="raster_neighbors_indices_impl", file=RG_H,
         anchor=r"inline auto raster_grid<S, RC, C>::neighbors_indices_impl\(\s*neighbors_indices_impl_type& neighbors, const size_type& idx\) const -> void",
         sig="void raster_neighbors_indices_impl(size_t *neighbors, size_t idx, size_t m_shape0, size_t m_shape1, size_t m_size, "
             "const uint8_t *m_nodes_codes, const ptrdiff_t *coded_off, const size_t *coded_n)",
-        pre=ACC + "size_t GKC; /* ghost: the location code stored for idx */\n",
-        rules=GRID_VOCAB + [
+        pre=ACC + mul,
+        rules=[R(r"static_cast<size_type>\((\(?offset\)?\[0\])\)\s*\*\s*m_shape\[1\]", r"fsl_mul((size_t) (\1), m_shape1)", 1)] + GRID_VOCAB + [
             V(r"const auto& offsets =", "const struct offvec offsets ="),
             V(r"\boffsets\.size\(\)", "offsets.size"),
             V(r"\boffsets\[([^\[\]]+)\]", r"(offsets.data + 2 * FSL_IDX1(\1, offsets.size))"),
@@ -371,9 +384,11 @@ __CPROVER_requires(__CPROVER_is_fresh(coded_off, 9 * OFFCAP * 16) && __CPROVER_i
 /* instances of the producers' postconditions: the stored code is one of the 9 location codes (raster.codes), its offset list has at
  * most n_neighbors_max entries (raster.coded_offsets.*) */
 __CPROVER_requires(m_nodes_codes[idx] == GKC && GKC < 9 && coded_n[GKC] <= NB_MAX && NB_MAX <= OFFCAP)
+/* the ghost product table is a function of the left operand */
+__CPROVER_requires(G_OFF == coded_off && GY == m_shape1 && %s)
 __CPROVER_assigns(__CPROVER_object_whole(neighbors))
 __CPROVER_ensures(%s)
-""" % post)
+""" % (consistent, post))
 
 
 def indices_group(nbmax):
@@ -383,36 +398,45 @@ def indices_group(nbmax):
 void h_idx(void)
 {
     size_t *nb; const uint8_t *codes; const ptrdiff_t *off; const size_t *cn;
-    GKC = nondet_size_t();
+    GKC = nondet_size_t(); GY = nondet_size_t(); G_OFF = off;
+    for (int j = 0; j < OFFCAP; ++j) GM[j] = nondet_size_t();
     raster_neighbors_indices_impl(nb, nondet_size_t(), nondet_size_t(), nondet_size_t(), nondet_size_t(), codes, off, cn);
     __CPROVER_assert(0, "canary: postcondition point reachable");
 }
-""", entry="h_idx", enforce=u.name, unwindset={(u.name, 0): OFFCAP + 1}, backend="sat", timeout=300, min_obligations=10, deciding=False,
+""", entry="h_idx", enforce=u.name, replace=["fsl_mul"], unwindset={(u.name, 0): OFFCAP + 1}, backend="sat", timeout=300, min_obligations=10, deciding=False,
+                 # static_cast<size_type>(negative offset) is well-defined (mod 2^64) and intended: the sum wraps back into range
+                 no_checks=["--conversion-check"],
                  clause="SUPPORTING (shaped like the code): neighbors_indices_impl (n_neighbors_max = %d) writes, for every offset stored for the "
-                        "node's code, (size_t) off_r * ncols + (size_t) off_c + idx; exactly offsets.size() slots; no out-of-range .at()" % nbmax)
+                        "node's code, mul((size_t) off_r, ncols) + (size_t) off_c + idx, `*` abstracted as a deterministic function; exactly "
+                        "offsets.size() slots; no out-of-range .at()" % nbmax)
 
 
-def index_lemma_group(conn):
+def index_lemma_group(conn, k):
+    """one group per location code: the code's class facts are top-level assumptions (conditional-free), so every assertion is a
+    plain polynomial identity"""
+    rc, cc = k // 3, k % 3
+    cls = ["GR == 0", "0 < GR && GR < m_shape0 - 1", "GR == m_shape0 - 1"][rc] + " && " + ["GC == 0", "0 < GC && GC < m_shape1 - 1", "GC == m_shape1 - 1"][cc]
     asserts = []
-    for k in range(9):
-        for dr, dc in STEPS[conn]:
-            tr, tc, orow, ocol = cls_tgt(k, dr, dc)
-            asserts.append('    __CPROVER_assert(CODE(GR, GC) != %d || (size_t) (%s) * m_shape1 + (size_t) (%s) + idx == (%s) * m_shape1 + (%s), '
-                           '"code %d step (%d,%d): flat index of the step target");' % (k, orow, ocol, tr, tc, k, dr, dc))
+    for dr, dc in STEPS[conn]:
+        tr, tc, orow, ocol = cls_tgt(k, dr, dc)
+        asserts.append('    __CPROVER_assert((size_t) (%s) * m_shape1 + (size_t) (%s) + idx == (%s) * m_shape1 + (%s), '
+                       '"code %d step (%d,%d): flat index of the step target");' % (orow, ocol, tr, tc, k, dr, dc))
     h = ND + GEO + r"""
 void h_il(void)
 {
     size_t m_shape0 = nondet_size_t(), m_shape1 = nondet_size_t();
     GR = nondet_size_t(); GC = nondet_size_t();
     __CPROVER_assume(2 <= m_shape0 && m_shape0 <= DIM_MAX && 2 <= m_shape1 && m_shape1 <= DIM_MAX && GR < m_shape0 && GC < m_shape1);
+    __CPROVER_assume(%s);   /* the nodes of location code %d (raster.spec_by_code.* relates this to CODE(GR, GC)) */
     size_t idx = GR * m_shape1 + GC;   /* ravel_idx(GR, GC), see raster.ravel */
 %s
     __CPROVER_assert(0, "canary: postcondition point reachable");
 }
-""" % "\n".join(asserts)
-    return Group(name="raster.index_lemma." + conn, units=[base], harness=h, entry="h_il", backend="cvc5", timeout=300, min_obligations=9,
-                 clause="%s: for each location code and step, (size_t) offset_r * ncols + (size_t) offset_c + (r * ncols + c) == target_r * ncols "
-                        "+ target_c with the code's wrap / non-wrap offsets (polynomial identities mod 2^64, symbolic shape in [2, 2^20]^2)" % conn)
+""" % (cls, k, "\n".join(asserts))
+    return Group(name="raster.index_lemma.%s.code%d" % (conn, k), units=[base], harness=h, entry="h_il", backend="z3", timeout=120,
+                 min_obligations=len(asserts), no_checks=["--conversion-check"],
+                 clause="%s, location code %d: for each step, (size_t) offset_r * ncols + (size_t) offset_c + (r * ncols + c) == target_r * ncols + "
+                        "target_c with the code's wrap / non-wrap offsets (polynomial identities mod 2^64, symbolic shape in [2, 2^20]^2)" % (conn, k))
 
 
 def count_impl_group(conn):
@@ -724,18 +748,18 @@ void h_%s(void)
 }
 """
     return [
-        Group(name="profile.build_gcode", units=common + [build_gcode], harness=hp % ("build_gcode", "build_gcode(gc, nondet_size_t())"),
+        Group(name="raster.profile.build_gcode", units=common + [build_gcode], harness=hp % ("build_gcode", "build_gcode(gc, nondet_size_t())"),
               entry="h_build_gcode", enforce="build_gcode", replace=["fsl_fill_u8"], timeout=120, min_obligations=5,
               clause="profile location codes: 0 first node, 2 last node, 1 inside (arbitrary node, size >= 2)"),
-        Group(name="profile.build_count", units=common + [p_build_count],
+        Group(name="raster.profile.build_count", units=common + [p_build_count],
               harness=hp % ("pbc", "profile_build_neighbors_count(cnt, nondet_size_t(), bs)"),
               entry="h_pbc", enforce="profile_build_neighbors_count", timeout=120, min_obligations=5,
               clause="profile count table: per location code the number of admissible steps"),
-        Group(name="profile.count_impl", units=common + [p_count_impl],
+        Group(name="raster.profile.count_impl", units=common + [p_count_impl],
               harness=hp % ("pci", "size_t r = profile_neighbors_count_impl(nondet_size_t(), cgc, ccnt, nondet_size_t(), bs)"),
               entry="h_pci", enforce="profile_neighbors_count_impl", timeout=120, min_obligations=5,
               clause="profile neighbors_count_impl(idx) == number of admissible steps at idx (given the code and count tables)"),
-        Group(name="profile.indices", units=common + [p_indices],
+        Group(name="raster.profile.indices", units=common + [p_indices],
               harness=hp % ("pni", "profile_neighbors_indices_impl(nb, nondet_size_t(), nondet_size_t(), bs)"),
               entry="h_pni", enforce="profile_neighbors_indices_impl", unwindset={("profile_neighbors_indices_impl", 0): 3},
               timeout=300, min_obligations=10,
@@ -757,12 +781,63 @@ void h_psym(void)
     __CPROVER_assert(0, "canary: postcondition point reachable");
 }
 """ % (cnt("a", "b"), cnt("b", "a"))
-    return Group(name="profile.symmetry", units=[st._PRE, st.pbs_is_hl], harness=h, entry="h_psym", timeout=120, min_obligations=1,
+    return Group(name="raster.profile.symmetry", units=[st._PRE, st.pbs_is_hl], harness=h, entry="h_psym", timeout=120, min_obligations=1,
                  clause="profile: the geometric neighbour relation is symmetric with multiplicities (spec-level lemma)")
 
 
 CONNS = ["queen", "rook", "bishop"]
 GROUPS = {"C07": [g for c in CONNS for g in [nno_group(c), count_group(c), symmetry_group(c), count_impl_group(c)] + [coded_group(c, k) for k in range(9)]]
           + [spec_by_code_group(c) for c in CONNS] + [codes_group()]
-          + [indices_group(8), indices_group(4)] + [index_lemma_group(c) for c in CONNS] + ravel_groups() + profile_groups() + [profile_symmetry_group()]}
-PROPS = {"C07": dict(level="other", assumptions=[], undecided=[], unmechanised=[], explanation="")}
+          + [indices_group(8), indices_group(4)] + [index_lemma_group(c, k) for c in CONNS for k in range(9)] + ravel_groups() + profile_groups() + [profile_symmetry_group()]}
+for _g in GROUPS["C07"]:
+    if _g.enforce:
+        _g.replay = "replay/raster.cpp"
+PROPS = {
+    "C07": dict(
+        level="other",
+        explanation="C07 is decided by unbounded / complete obligations for: the per-code offset lists and count tables (all three "
+                    "connectivities, all looped combinations, symbolic shape in [2, 2^20]^2), the count accessor, symmetry of the geometric "
+                    "relation, ravel/unravel round trip, and the whole profile grid (codes, counts, indices, symmetry; size in [2, 2^40]). "
+                    "The 2-D flat-index clause is split into a SUPPORTING function-level group (shaped like the code, `*` abstracted) and "
+                    "scalar polynomial lemmas per (location code, step), joined by an unmechanised substitution; the code table relies on "
+                    "two ASSUMED arithmetic lemmas about row * ncols + col. Distances, statuses of neighbours, the (row, col) overloads, "
+                    "the struct accessors and the cache are not under contract here.",
+        assumptions=[
+            "RAVEL_INJECTIVE (assumed, elementary): for col, col' < ncols: row * ncols + col == row' * ncols + col' <=> (row, col) == (row', col'); "
+            "RAVEL_IN_RANGE (assumed): row < nrows, col < ncols ==> row * ncols + col < nrows * ncols.  cvc5, z3 and SAT all time out on "
+            "both (120 s probes); used by raster.codes through the replaced contract of ravel_idx (the equation ravel_idx == row * ncols + "
+            "col itself is proved in raster.ravel)",
+            "std::vector<std::array<ptrdiff_t,2>> is a flat buffer of pairs + length with model capacity 8 (push_back beyond it is an "
+            "obligation); std::array<bool,N> / std::array<size_type,9> are C arrays; the braced list returned by "
+            "build_coded_neighbors_offsets is 9 independent side-effect-free calls, each group compiles the entry of its own location code",
+            "std::vector<uint8_t>(n, v) and vector copy assignment in build_nodes_codes are ghost-cell models (contract only: the ghost "
+            "positions hold v / are copied); storage of the vectors and of m_nodes_codes is provided by the caller; in raster.codes the "
+            "optional --conversion-check is dropped (int -> uint8_t narrowing is well-defined; non-ghost entries are not bounded by the model)",
+            "neighbors_indices_impl: `x * ncols` is abstracted as a deterministic function of its operands (ghost table GM), "
+            "static_cast<size_type>(negative offset) is the intended well-defined wrap (conversion check dropped in raster.indices.* and the "
+            "index lemmas); std::array::at() out of range is an obligation (no exception expected)",
+            "accessors nodes_codes(idx) / neighbor_offsets(code) / gcode(idx) are translated as table reads with index obligations "
+            "(gcode is extracted); looped borders are symmetrical (class invariant from C17: status.looped.*)",
+            "precondition instances (producers named in each contract): code table entry of the queried node, count table, offset-list "
+            "length <= n_neighbors_max",
+            "spec-level lemma groups (raster.symmetry.*, raster.spec_by_code.*, raster.index_lemma.*, profile.symmetry) are plain harnesses "
+            "whose __CPROVER_assume lines state the spec's own domain (shape bounds, node inside, symmetric looped borders, location class)",
+        ],
+        unmechanised=[
+            "index clause: raster.indices.nb* (slot i == mul(off_r[i], ncols) + off_c[i] + idx) + raster.coded_offsets.* (the stored offsets "
+            "are, as a multiset, target - node over the admissible steps) + raster.index_lemma.* (for each such offset the expression equals "
+            "target_r * ncols + target_c) ==> the produced indices are, as a multiset, the flat indices of the geometric neighbours "
+            "(substitution of equals, elementwise map of equal multisets); all < size by RAVEL_IN_RANGE",
+            "counts agree with list lengths: raster.count_table.* and raster.coded_offsets.* are both stated against the same geometric "
+            "count (number of admissible steps); equality of the two follows by transitivity",
+            "from the arbitrary ghost node to all nodes",
+        ],
+        undecided=[
+            "neighbors_distances_impl / build_coded_neighbors_distances (compute_distance is xtensor expression code), neighbour status field, "
+            "the (row, col) overloads (raster_grid.hpp:902-986), grid::neighbors / neighbors_indices wrappers and the neighbour cache "
+            "(base.hpp) are not under contract in this module",
+            "a property-level (not code-shaped) function contract for raster neighbors_indices_impl: every back end times out on the "
+            "flat-index equality once the offsets are array reads (see module comment)",
+        ],
+    ),
+}
